@@ -3,6 +3,10 @@
 // attributes, type presence, errors) on generated module sets, plus the Go-side structural
 // oracle the pure model cannot express: parent pointers, unique reachability of every *Entry,
 // *ListAttr and *RPCEntry, kind consistency, no recorded error anywhere after a clean Process.
+// "Anywhere" = every node reachable over Dir and rpc input/output from the root entry of every
+// loaded module and submodule (roots included, also of modules that hold nothing but deviations),
+// plus the entries a node keeps beside its children: deviation / deviate entries and the copies of
+// merged augments (Entry.Deviations, Entry.Deviate, Entry.Augmented).
 package main
 
 import (
@@ -408,7 +412,7 @@ func main() {
 	res.Evaluations = int64(len(cases))
 	_ = nCorpus
 	res.DistinctNontrivial = distinct.Len()
-	res.Rule = "seeded grammar-directed module sets (harness/gen: 1-3 modules, submodules with nested includes, groupings/uses, choices, rpc/action, notifications, augments, deviations, tiny name pools, deliberate faults at a low rate; plus n/4 sets with late augments added by gen.AddLateAugments - target through or at an implied case, body with short-hand choice members, written in owner / submodule / importer - and a fixed corpus of such sets; plus n/4 sets in the files-on-disk variant: only the root modules (nobody imports them), a random subset, or one module are handed to Parse, the rest lies on the search path and is loaded by Process, the oracle walks every module that ended up loaded and the model is asked with exactly the loaded texts; plus n/4 sets where the checked Process run is the last of a sequence on one Modules value: Process twice / ClearEntryCache in between / reads with lazy input-output creation in between / cleared cache and lazy rebuild by ToEntry in between / opposite ParseOptions and AddPath before / GetModule in between; plus n/4 sets whose deviation and augment targets carry undeclared / unimported / module-name / no prefixes on the steps after the first (gen.AddOddPrefixes)); distinct_nontrivial = distinct sets (by text) on which Process reports no errors, i.e. where the tree invariant is actually checked"
+	res.Rule = "seeded grammar-directed module sets (harness/gen: 1-3 modules, submodules with nested includes, groupings/uses, choices, rpc/action, notifications, augments, deviations, tiny name pools, deliberate faults at a low rate; plus n/4 sets with late augments added by gen.AddLateAugments - target through or at an implied case, body with short-hand choice members, written in owner / submodule / importer - and a fixed corpus of such sets; plus n/4 sets in the files-on-disk variant: only the root modules (nobody imports them), a random subset, or one module are handed to Parse, the rest lies on the search path and is loaded by Process, the oracle walks every module that ended up loaded and the model is asked with exactly the loaded texts; plus n/4 sets where the checked Process run is the last of a sequence on one Modules value: Process twice / ClearEntryCache in between / reads with lazy input-output creation in between / cleared cache and lazy rebuild by ToEntry in between / opposite ParseOptions and AddPath before / GetModule in between; plus n/4 sets whose deviation and augment targets carry undeclared / unimported / module-name / no prefixes on the steps after the first (gen.AddOddPrefixes), and a fixed corpus of such sets with deviations and augments kept apart - deviations run after the last error sweep - written by a deviations-only module, a module with nodes and augments of its own, a submodule with per-file prefixes, loaded from the path, and as the last run of a sequence); distinct_nontrivial = distinct sets (by text) on which Process reports no errors, i.e. where the tree invariant is actually checked"
 	res.Distribution["clean_sets"] = clean
 	res.Distribution["sets_with_errors"] = withErr
 	res.Distribution["sets_with_late_errors(merge/deviation)"] = late
